@@ -17,7 +17,7 @@ def main():
     os.makedirs(out, exist_ok=True)
     sys.path.insert(0, os.path.dirname(os.path.abspath(__file__)))
     changed = []
-    for modname in ['gen_tables', 'gen_hashconst', 'gen_lockast', 'gen_consts', 'gen_seqwrap']:
+    for modname in ['gen_tables', 'gen_hashconst', 'gen_lockast', 'gen_consts', 'gen_seqwrap', 'gen_treeops']:
         try:
             mod = importlib.import_module(modname)
         except ModuleNotFoundError:
